@@ -231,16 +231,24 @@ def r1_same_filter(ctx):
     ctx.check(R, "filter-tests-handler-versions", (EP, "versions") in o0.fields and 2 in f.slice(t["args"][0]).params(), "matches() receiver is the candidate handler's `versions`", (f, bb))
     ctx.check(R, "filter-tests-iterator-version", o1.roots == {(ihf.id, 2)} and not _plumbing_only(o1), "matches() argument is iter_handlers_from_node's version (origin %s)" % sorted(o1.roots), (f, bb))
     sw = [(sb, st) for sb, st in f.switches() if operand_local(st["discr"]) == t["dest"]["l"]]
-    if len(sw) != 1:
+    thens = [(tb_, tt) for tb_, tt in f.live_calls(r"bool::(then|then_some)$") if operand_local(tt["args"][0]) == t["dest"]["l"]]
+    if len(sw) == 1 and not thens:
+        tb, fb = _bool_targets(f, sw[0][0])
+        somes = [(b, s) for b, i, s in f.aggregates(r"^std::option::Option$", "Some") if s["pl"]["l"] == 0 and not s["pl"]["p"]]
+        nones = [(b, s) for b, i, s in f.aggregates(r"^std::option::Option$", "None") if s["pl"]["l"] == 0 and not s["pl"]["p"]]
+        ok = bool(somes) and all(f.edge_dominates(sw[0][0], tb, b) for b, s in somes) and bool(nones) and all(f.edge_dominates(sw[0][0], fb, b) for b, s in nones)
+        ctx.check(R, "filter-keeps-iff-matches", ok, "Some(..) is returned exactly on the true edge of matches() and None on the false edge: %s" % ok, (f, sw[0][0]))
+        same = all(2 in f.slice(s["rv"]["ops"][0]).params() for b, s in somes)
+        ctx.check(R, "filter-yields-tested-handler", same, "the yielded handler is the one whose versions were tested", (f, bb))
+    elif len(thens) == 1 and not sw:
+        tb_, tt = thens[0]
+        ret = f.slice({"l": 0, "p": []})
+        ok = any(b == tb_ for c, b, x in ret.callees) and not callee_allow(ret, PLUMBING + [r"bool::(then|then_some)$", MATCHES.strip("^$")]) and ("unop", "Not") not in ret.atoms
+        ctx.check(R, "filter-keeps-iff-matches", ok, "the closure returns matches(..).then(..): Some exactly when matches() is true: %s" % ok, (f, tb_))
+        ctx.check(R, "filter-yields-tested-handler", 2 in f.slice(tt["args"][1]).params(), "the yielded handler is the one whose versions were tested", (f, bb))
+    else:
         ctx.lost(R, "the branch on matches()'s result")
         return
-    tb, fb = f.bool_edges(sw[0][0])
-    somes = [(b, s) for b, i, s in f.aggregates(r"^std::option::Option$", "Some") if s["pl"]["l"] == 0 and not s["pl"]["p"]]
-    nones = [(b, s) for b, i, s in f.aggregates(r"^std::option::Option$", "None") if s["pl"]["l"] == 0 and not s["pl"]["p"]]
-    ok = bool(somes) and all(f.edge_dominates(sw[0][0], tb, b) for b, s in somes) and bool(nones) and all(f.edge_dominates(sw[0][0], fb, b) for b, s in nones)
-    ctx.check(R, "filter-keeps-iff-matches", ok, "Some(..) is returned exactly on the true edge of matches() and None on the false edge: %s" % ok, (f, sw[0][0]))
-    same = all(2 in f.slice(s["rv"]["ops"][0]).params() for b, s in somes)
-    ctx.check(R, "filter-yields-tested-handler", same, "the yielded handler is the one whose versions were tested", (f, bb))
     # sibling: the router's selection uses the same predicate
     fh = ctx.need_fn(ds, R, r"^router::find_handler_matching_version$")
     sib = [(h, hb, ht) for h in [ds.F[x] for x in ds.region([fh.id])] for hb, ht in h.live_calls(MATCHES)]
@@ -254,6 +262,42 @@ def r1_same_filter(ctx):
 
 
 # --------------------------------------------------------------------------- R2
+def _bool_targets(f, sb):
+    """(target when the scrutinee is true, target when it is false) of a switch on a bool."""
+    t = f.blocks[sb]["term"]
+    tv = {v: b for v, b in t["targets"]}
+    return tv.get(1, t["otherwise"]), tv.get(0, t["otherwise"])
+
+
+def _polarity(f, op, depth=0):
+    """True if the bool operand equals `<something>.visible`, False if it is its negation, None if
+    it is anything else (Not, == false, != true, copies are folded)."""
+    if depth > 8 or op.get("k") not in ("copy", "move"):
+        return None
+    pl = op["pl"]
+    if pl["p"]:
+        last = pl["p"][-1]
+        return True if isinstance(last, dict) and last.get("n") == "visible" else None
+    ds_ = [d for d in f.defs().get(pl["l"], []) if not f.blocks[d[0]]["cleanup"]]
+    if len(ds_) != 1 or ds_[0][1] != "assign":
+        return None
+    rv = ds_[0][2]["rv"]
+    if rv["rv"] == "use":
+        return _polarity(f, rv["op"], depth + 1)
+    if rv["rv"] == "unop" and rv["op"] == "Not":
+        p = _polarity(f, rv["a"], depth + 1)
+        return None if p is None else (not p)
+    if rv["rv"] == "binop" and rv["op"] in ("Eq", "Ne"):
+        for x, y in ((rv["a"], rv["b"]), (rv["b"], rv["a"])):
+            if y.get("k") == "const" and y.get("ty") == "bool" and y.get("val") and "int" in y["val"]:
+                p = _polarity(f, x, depth + 1)
+                if p is None:
+                    return None
+                same = bool(y["val"]["int"]) == (rv["op"] == "Eq")
+                return p if same else (not p)
+    return None
+
+
 def _visible_guard(m):
     """(switch bb, publish target, skip target) of the per-endpoint visibility test in the loop."""
     g = m.gen
@@ -263,10 +307,12 @@ def _visible_guard(m):
         if sb not in g.reachable(0):
             continue
         o = m.flow.origins(g, t["discr"])
-        if (EP, "visible") in o.fields and (g.id, nbb) in o.call_sites and g.switch_on(sb)["kind"] == "bool":
-            tb, fb = g.bool_edges(sb)
-            neg = sum(1 for a in g.slice(t["discr"]).atoms if a[0] == "unop" and a[1] == "Not") % 2 == 1
-            out.append((sb, fb, tb) if neg else (sb, tb, fb))
+        if (EP, "visible") in o.fields and (g.id, nbb) in o.call_sites:
+            pol = _polarity(g, t["discr"])
+            if pol is None:
+                continue
+            tb, fb = _bool_targets(g, sb)
+            out.append((sb, tb, fb) if pol else (sb, fb, tb))
     return out
 
 
@@ -292,7 +338,7 @@ def r2_unpublished(ctx):
             t = g.blocks[b]["term"]
             if t["t"] == "call":
                 for a in t["args"]:
-                    if g.slice(a).locals() & state:
+                    if (g.slice(a, stop_at_calls=r"iter::Iterator::next$").locals() & state) - {nt["dest"]["l"]}:
                         calls.append((t.get("callee"), b))
             for st in g.blocks[b]["st"]:
                 if st["s"] == "assign" and (st["pl"]["l"] in state or (st["rv"]["rv"] == "ref" and st["rv"].get("mut") and st["rv"]["pl"]["l"] in state)):
@@ -692,7 +738,7 @@ def r5_determinism(ctx):
                 a1 = m.flow.origins(c, cmpc[0][1]["args"][1])
                 okc = ("openapiv3::Tag", "name") in a0.fields and ("openapiv3::Tag", "name") in a1.fields and \
                     sorted(s0.params() + s1.params()) == [2, 3] and c.slice({"l": 0, "p": []}).has_call(r"cmp::Ord::cmp$") and \
-                    not callee_allow(c.slice({"l": 0, "p": []}), PLUMBING + [r"cmp::Ord::cmp$"])
+                    not callee_allow(c.slice({"l": 0, "p": []}), PLUMBING + [r"cmp::Ord::cmp$", r"cmp::Ordering::reverse$"])
         ctx.check(R, "tags-sorted-by-name", okc, "openapi.tags.sort_by compares the two elements' `name` with Ord::cmp: %s" % okc, (g, sb))
     ctx.check(R, "tags-sort-present", len(sorts) >= 1, "sorts of openapi.tags: %d" % len(sorts), g, nontrivial=False)
     disj = False
@@ -793,6 +839,8 @@ AD = "dropshot/src/api_description.rs"
 RT = "dropshot/src/router.rs"
 _VIS = "            if !endpoint.visible {\n                continue;\n            }\n"
 SELFTEST = [
+    {"name": "prefix-f6-tags", "kind": "mutant", "revert": "a6255b8", "expect": ["C06.R2"],
+     "why": "pre-fix F6: the tag scan lists ad-hoc tags of unpublished endpoints in the document's top-level `tags`"},
     {"name": "endpoints-none-in-loop", "kind": "mutant", "edits": [(AD, "for (path, method, endpoint) in self.router.endpoints(Some(version)) {", "for (path, method, endpoint) in self.router.endpoints(None) {")],
      "expect": ["C06.R1"], "why": "the document lists endpoints of every version, not those served at v"},
     {"name": "visible-check-removed", "kind": "mutant", "edits": [(AD, _VIS, "")], "expect": ["C06.R2"], "why": "unpublished endpoints are documented"},
